@@ -358,23 +358,20 @@ def rule_r4_regulated(ctx: Ctx) -> None:
         fn = mod.functions.get(fname)
         if fn is None:
             raise AnalysisError("anchor _port_id_ranges.%s missing" % fname)
-        rets = [p for p in paths_of(fn.node)]
-        if len(rets) != 1 or rets[0].kind != "return" or rets[0].conds:
-            raise AnalysisError("%s: expected a single unconditional return" % fname)
-        expr = rets[0].value
-        params = fn.params
+        from ..absint import Raised as _Raised, call_fn, ctor_hook
+
         bad = []
         for root, cat in (("uavcan", "standard"), ("cyphal", "standard"), ("vendor", "vendor"), ("uavcanx", "vendor"), ("Uavcan", "vendor")):
             lo, hi = spec.REGULATED[(kind, cat)]
             for pid in sorted({0, lo - 1, lo, lo + 1, hi - 1, hi, hi + 1, 255, 256, 383, 384, 511, 512, 6143, 6144, 7167, 7168, 8191, 8192}):
                 try:
-                    got = Folder({params[0]: pid, params[1]: root}, repo, mod).fold(expr)
-                except Unfoldable as ex:
-                    raise AnalysisError("%s: cannot fold %s: %s" % (fname, norm(expr), ex))
+                    got = call_fn(ctx, fn, [pid, root], hook=ctor_hook(ctx, None), keep=())
+                except (Unfoldable, _Raised) as ex:
+                    raise AnalysisError("%s(%r, %r): cannot evaluate: %s" % (fname, pid, root, ex))
                 ctx.count()
                 if bool(got) != (lo <= pid <= hi):
                     bad.append({"root": root, "port_id": pid, "found": bool(got), "expected": lo <= pid <= hi})
-        ctx.check(not bad, fn.short, norm(expr), "regulated %s-ID range must match the Specification for standard and vendor namespaces" % kind, fn.where(), bad[:6])
+        ctx.check(not bad, fn.short, "regulated range over boundary port-IDs x 5 root namespaces", "regulated %s-ID range must match the Specification for standard and vendor namespaces" % kind, fn.where(), bad[:6])
     ctx.sample({"rule": "C05.R4", "fn": "is_valid_regulated_subject_id", "boundaries": "6143..6144, 7167..7168, 8191..8192 x {uavcan, cyphal, vendor}"})
 
     # application in finalize: the builder is driven through its public interface and finalized (builder_common); the two range
